@@ -13,6 +13,7 @@ mod lazyreplay;
 mod lockmine;
 mod sched;
 mod openreplay;
+mod rawrecord;
 mod rawreplay;
 mod reads;
 mod util;
@@ -41,6 +42,7 @@ fn main() {
         "openreplay" => openreplay::main(&args[2..]),
         "concreplay" => concreplay::main(&args[2..]),
         "concmodel" => concmodel::main(&args[2..]),
+        "rawrecord" => rawrecord::main(&args[2..]),
         "vecconc" => vecconc::main(&args[2..]),
         "vecfree" => vecfree::main(&args[2..]),
         "openprobe" => openreplay::probe_main(&args[2..]),
